@@ -90,6 +90,7 @@ PROPS = {
                       "getter reads, with the registered type and width' and 'a refused value leaves the object unchanged' for all paths of the setters.",
         "level_note": "direct stores and mem* writes into the object are effects; writes made by callees that receive &obj->field are attributed to the callee's own result (not counted)",
         "rules": [
+            {"run": rules_layout.run_terminated, "floor": 1},
             {"run": rules_layout.run_flagpath, "floor": 1},
             {"run": rules_layout.run_proptable, "floor": 100},
             {"run": rules_layout.run_convdest, "floor": 60, "scope": "anchors"},
@@ -201,7 +202,7 @@ PROPS = {
         "extra_scope_files": ["mptcore/config/path_addchar.c", "mptcore/config/path_add.c", "mptcore/config/path_del.c", "mptcore/config/path_set.c",
                               "mptcore/array/array_push.c", "mptcore/array/array_message.c", "mptcore/message/message_append.c"],
         "rules": [
-            {"run": rules_lin.run_linbuf, "floor": 45, "use_anchor_files": True, "ctx": {"only_dir": "mptcore/array/"}},
+            {"run": rules_lin.run_linbuf, "floor": 60, "use_anchor_files": True, "ctx": {"only_dir": "mptcore/array/"}},
             {"run": rules_cow.run, "floor": 20, "use_anchor_files": True},
             {"run": rules_cow.run_sliceoff, "floor": 2, "use_anchor_files": True},
             {"run": rules_path.run_nullcontra, "floor": 60, "use_anchor_files": True},
@@ -287,6 +288,7 @@ PROPS = {
                       "the one place where a length parameter switches meaning cannot drop elements unfinalised.",
         "level_note": "destructor-only traits of non-copyable C++ unique arrays are accepted (noted in evidence)",
         "rules": [
+            {"run": rules_traits.run_ctorcover, "floor": 2},
             {"run": rules_traits.run_traits, "floor": 20},
             {"run": rules_traits.run_finiloop, "floor": 6},
             {"run": rules_traits.run_deadfini, "floor": 3},
@@ -373,6 +375,7 @@ PROPS = {
                       "afterwards') for every store in the dispatcher sources, on all paths.",
         "level_note": "one-shot reply handlers in the stream/connection wait queues (invoked with the reply, then cleared) are outside the anchored files and reported as unattributed",
         "rules": [
+            {"run": rules_event.run_finiall, "floor": 1},
             {"run": rules_event.run_finaliser, "floor": 10, "scope": "anchors"},
             {"run": rules_reply.run_idwidth, "floor": 8},
             {"run": rules_path.run_nullcontra, "floor": 10, "use_anchor_files": True},
